@@ -257,9 +257,43 @@ let op_addr opidx impl toks =
        | _ -> ())
   | _ -> ()
 
+(* ---- C16: stream framing ---- *)
+let op_frame opidx impl toks =
+  match toks with
+  | reader_kind :: rej :: stream :: sched ->
+      let s = bytes_of_hex stream in
+      let evs = List.filter_map (fun e ->
+          if e = "" then None
+          else match e.[0] with
+            | 'r' -> Some (R (nat_of_int (int_of_string (String.sub e 1 (String.length e - 1)))))
+            | 't' -> Some T
+            | 'w' -> Some (if reader_kind = "tlss" || reader_kind = "tlsc" then W else R (nat_of_int 0))
+            | 'e' -> if e = "eof" then None else Some E
+            | _ -> None) sched in
+      (* the tcp readers have no "want read": a w event is not generated for them *)
+      let rejat = if rej = "-" then -1 else int_of_string rej in
+      let count = ref 0 in
+      let accept _ = (let k = !count in incr count; k <> rejat) in
+      let idle_continues = (reader_kind = "tcpc" || reader_kind = "tlsc") in
+      let pk = reader (nat_of_int (List.length evs + 8)) idle_continues accept evs s in
+      pr "obs %d frame pkts=%s\n" opidx (if pk = [] then "-" else String.concat "," (List.map hex_of_bytes pk));
+      (match impl with
+       | Some [ "frame"; p ] ->
+           let ip = if p = "pkts=-" then [] else List.map bytes_of_hex (String.split_on_char ',' (String.sub p 5 (String.length p - 5))) in
+           let fr = frames s in
+           spec opidx "C16_prefix" (is_prefix_of ip fr) (Printf.sprintf "%s handed=%d frames=%d" reader_kind (List.length ip) (List.length fr));
+           let only_data = List.for_all (fun e -> match e with R _ | W -> true | _ -> false) evs in
+           let enough = List.fold_left (fun a e -> match e with R k -> a + max (int_of_nat k) 1 | _ -> a) 0 evs in
+           if only_data && rejat < 0 && List.length evs >= List.length s then
+             spec opidx "C16_indep" (list_beq ip fr) (Printf.sprintf "%s handed=%d frames=%d" reader_kind (List.length ip) (List.length fr));
+           ignore enough
+       | _ -> ())
+  | _ -> ()
+
 let run (opidx : int) (impl : string list option) (toks : string list) : bool =
   match toks with
   | "choose" :: rest -> op_choose opidx impl rest; true
+  | "frame" :: rest -> op_frame opidx impl rest; true
   | "addr" :: rest -> op_addr opidx impl rest; true
   | "rewrite" :: rest -> op_rewrite opidx impl rest; true
   | "parse" :: rest -> op_parse opidx impl rest; true
